@@ -245,6 +245,21 @@ class Executor:
                 e = s.exc.func if isinstance(s.exc, ast.Call) else s.exc
                 what = self.p.resolve_expr(func.module, e, func) or short(e)
             raise _Raise(what, s)
+        if isinstance(s, ast.For) and isinstance(s.target, ast.Name) and not s.orelse \
+                and not any(isinstance(x, (ast.Break, ast.Continue)) for b in s.body for x in ast.walk(b)):
+            # a loop over a constant tuple/list of strings (e.g. header names to delete) is unrolled
+            elts = None
+            if isinstance(s.iter, (ast.Tuple, ast.List)) and all(isinstance(e, ast.Constant) for e in s.iter.elts):
+                elts = list(s.iter.elts)
+            else:
+                folded = self.p.fold(func.module, s.iter, func.cls, func)
+                if isinstance(folded, (tuple, list)) and all(isinstance(x, (str, int)) for x in folded):
+                    elts = [ast.copy_location(ast.Constant(value=x), s.iter) for x in folded]
+            if elts is not None:
+                for e in elts:
+                    env[s.target.id] = self.eval(e, env, func, depth)
+                    self._block(s.body, env, func, depth)
+                return
         raise UnknownIdiom('%s: statement form %s not supported by the policy interpreter (%s)' % (
             func.qual, type(s).__name__, func.loc(s)))
 
@@ -370,13 +385,17 @@ class Executor:
         raise UnknownIdiom('%s: expression form %s (%s)' % (func.qual, type(e).__name__, short(e, 60)))
 
     # -------------------------------------------------------------- calls
-    def _header_name(self, c: ast.Call, func) -> str:
+    def _header_name(self, c: ast.Call, func, env=None) -> str:
         arg = c.args[0] if c.args else None
         if arg is None:
             for k in c.keywords:
                 if k.arg in ('name', 'header'):
                     arg = k.value
         name = self._fold_str(arg, func) if arg is not None else None
+        if name is None and env is not None and isinstance(arg, ast.Name) and arg.id in env:
+            v = env[arg.id]
+            if isinstance(v, tuple) and len(v) == 2 and v[0] == 'const' and isinstance(v[1], str):
+                name = v[1]     # e.g. the variable of an unrolled loop over header names
         if name is None:
             raise UnknownIdiom('%s: header name of %s is not a constant' % (func.qual, short(c)))
         self.header_names.setdefault(name.lower(), name)
@@ -389,7 +408,7 @@ class Executor:
             is_param = env.get(base) == ('sym', 'param:' + base)
             if base == self.req and self.req is not None and is_param:
                 if f.attr == 'get_header':
-                    name = self._header_name(c, func)
+                    name = self._header_name(c, func, env)
                     default = None
                     if len(c.args) >= 2:
                         raise UnknownIdiom('%s: positional `required` argument in %s' % (func.qual, short(c)))
@@ -404,7 +423,7 @@ class Executor:
                 raise UnknownIdiom('%s: request method call %s' % (func.qual, short(c)))
             if base == self.resp and self.resp is not None and is_param:
                 if f.attr == 'get_header':
-                    name = self._header_name(c, func)
+                    name = self._header_name(c, func, env)
                     if len(c.args) > 1 or c.keywords:
                         raise UnknownIdiom('%s: default in %s' % (func.qual, short(c)))
                     st = self.leaf.header_state(name)
@@ -414,7 +433,7 @@ class Executor:
                         return st[1]
                     return NONE
                 if f.attr in HEADER_SET:
-                    name = self._header_name(c, func)
+                    name = self._header_name(c, func, env)
                     if len(c.args) != 2 or c.keywords:
                         raise UnknownIdiom('%s: %s' % (func.qual, short(c)))
                     v = self.eval(c.args[1], env, func, depth)
@@ -422,7 +441,7 @@ class Executor:
                     self.leaf.events.append(('set', name, v, c, func))
                     return NONE
                 if f.attr == 'delete_header':
-                    name = self._header_name(c, func)
+                    name = self._header_name(c, func, env)
                     self.leaf.store[name] = ('del',)
                     self.leaf.events.append(('del', name, None, c, func))
                     return NONE
